@@ -2,6 +2,7 @@ package main
 
 import (
 	"fmt"
+	mbig "math/big"
 	"go/ast"
 	"go/types"
 )
@@ -306,4 +307,60 @@ func init() {
 	intrinsics["slices.SortFunc"] = sortPerm
 	intrinsics["sort.Slice"] = sortPerm
 	intrinsics["sort.SliceStable"] = sortPerm
+}
+
+func init() {
+	I := intrinsics
+	bigr := func(fc *FCtx, e *ast.CallExpr, t string) []Val { return []Val{{T: t, S: SInt, GoT: fc.resT(e)}} }
+	op2 := func(op string) intrinsic {
+		return func(fc *FCtx, st *State, e *ast.CallExpr, r *Val, a []Val) []Val { return bigr(fc, e, app(op, a[0].T, a[1].T)) }
+	}
+	p := "(*math/big.Int)."
+	I[p+"Add"] = op2("+")
+	I[p+"Sub"] = op2("-")
+	I[p+"Mul"] = op2("*")
+	I[p+"Div"] = func(fc *FCtx, st *State, e *ast.CallExpr, r *Val, a []Val) []Val {
+		fc.panicCheck(st, "div-by-zero", "(not (= "+a[1].T+" 0))", e.Pos())
+		return bigr(fc, e, app("div", a[0].T, a[1].T)) // Euclidean
+	}
+	I[p+"Mod"] = func(fc *FCtx, st *State, e *ast.CallExpr, r *Val, a []Val) []Val {
+		fc.panicCheck(st, "div-by-zero", "(not (= "+a[1].T+" 0))", e.Pos())
+		return bigr(fc, e, app("mod", a[0].T, a[1].T))
+	}
+	I[p+"Quo"] = func(fc *FCtx, st *State, e *ast.CallExpr, r *Val, a []Val) []Val {
+		fc.panicCheck(st, "div-by-zero", "(not (= "+a[1].T+" 0))", e.Pos())
+		return bigr(fc, e, app("tdiv", a[0].T, a[1].T))
+	}
+	I[p+"Rem"] = func(fc *FCtx, st *State, e *ast.CallExpr, r *Val, a []Val) []Val {
+		fc.panicCheck(st, "div-by-zero", "(not (= "+a[1].T+" 0))", e.Pos())
+		return bigr(fc, e, app("tmod", a[0].T, a[1].T))
+	}
+	idf := func(fc *FCtx, st *State, e *ast.CallExpr, r *Val, a []Val) []Val { return bigr(fc, e, a[0].T) }
+	I[p+"Set"] = idf
+	I[p+"SetUint64"] = idf
+	I[p+"SetInt64"] = idf
+	sh := func(right bool) intrinsic {
+		return func(fc *FCtx, st *State, e *ast.CallExpr, r *Val, a []Val) []Val {
+			tv := fc.info().Types[e.Args[1]]
+			if tv.Value == nil {
+				oos("big.Int shift by non-constant")
+			}
+			var k uint
+			fmt.Sscan(tv.Value.ExactString(), &k)
+			pw := new(mbig.Int).Lsh(mbig.NewInt(1), k).String()
+			if right {
+				return bigr(fc, e, app("div", a[0].T, pw)) // floor (arithmetic shift)
+			}
+			return bigr(fc, e, app("*", a[0].T, pw))
+		}
+	}
+	I[p+"Rsh"] = sh(true)
+	I[p+"Lsh"] = sh(false)
+	I[p+"Uint64"] = func(fc *FCtx, st *State, e *ast.CallExpr, r *Val, a []Val) []Val {
+		return []Val{{T: app("wrap_uint64", app("iabs", r.T)), S: SInt, GoT: fc.resT(e)}}
+	}
+	I[p+"Int64"] = func(fc *FCtx, st *State, e *ast.CallExpr, r *Val, a []Val) []Val {
+		return []Val{{T: app("wrap_int64", r.T), S: SInt, GoT: fc.resT(e)}}
+	}
+	I[p+"IsUint64"] = func(fc *FCtx, st *State, e *ast.CallExpr, r *Val, a []Val) []Val { return bv(app("in_uint64", r.T)) }
 }
